@@ -77,18 +77,29 @@ static std::vector<Arr> layout(const mjModel* m, size_t* sizes_off, size_t* stru
 }
 // cross-reference fields and their legal range [lo, hi) - written from the comments in mjmodel.h, independently
 // of the engine's own validation
-struct Bound { const char* field; long lo; long (*hi)(const mjModel*); bool adr = false; };   // adr: start address of a possibly empty range, value == hi is legal
+struct Bound { const char* field; long lo; long (*hi)(const mjModel*); bool adr = false;       // adr: start address of a possibly empty range, value == hi is legal
+               long (*width)(const mjModel*, long) = nullptr; };                                // width: number of target slots element i occupies from its address (value + width <= hi)
+#define WD(expr) [](const mjModel* m, long i) -> long { return (long)(expr); }
+static long qpos_width(const mjModel* m, long i) { int t = m->jnt_type[i]; return t == mjJNT_FREE ? 7 : t == mjJNT_BALL ? 4 : 1; }
+static long dof_width(const mjModel* m, long i) { int t = m->jnt_type[i]; return t == mjJNT_FREE ? 6 : t == mjJNT_BALL ? 3 : 1; }
+// legal value of element i of a table field
+static bool legal_ref(const Bound& b, const mjModel* m, long i, long v) {
+  long hi = b.hi(m);
+  if (b.width) { if (v == -1 && b.lo == -1) return true; long w = b.width(m, i); return v >= 0 && v + w <= hi; }
+  return v >= b.lo && v < hi + (b.adr ? 1 : 0);
+}
 #define HI(expr) [](const mjModel* m) -> long { return (long)(expr); }
 static const Bound kBounds[] = {
     {"body_parentid", 0, HI(m->nbody)}, {"body_rootid", 0, HI(m->nbody)}, {"body_weldid", 0, HI(m->nbody)}, {"body_mocapid", -1, HI(m->nmocap)},
-    {"body_jntadr", -1, HI(m->njnt), true}, {"body_dofadr", -1, HI(m->nv), true}, {"body_geomadr", -1, HI(m->ngeom), true}, {"body_treeid", -1, HI(m->ntree)},
-    {"jnt_qposadr", 0, HI(m->nq)}, {"jnt_dofadr", 0, HI(m->nv)}, {"jnt_bodyid", 0, HI(m->nbody)},
+    {"body_jntadr", -1, HI(m->njnt), true, WD(m->body_jntnum[i])}, {"body_dofadr", -1, HI(m->nv), true, WD(m->body_dofnum[i])}, {"body_geomadr", -1, HI(m->ngeom), true, WD(m->body_geomnum[i])},
+    {"body_treeid", -1, HI(m->ntree)},
+    {"jnt_qposadr", 0, HI(m->nq), false, qpos_width}, {"jnt_dofadr", 0, HI(m->nv), false, dof_width}, {"jnt_bodyid", 0, HI(m->nbody)},
     {"dof_bodyid", 0, HI(m->nbody)}, {"dof_jntid", 0, HI(m->njnt)}, {"dof_parentid", -1, HI(m->nv)}, {"dof_treeid", 0, HI(m->ntree)},
     {"geom_bodyid", 0, HI(m->nbody)}, {"geom_matid", -1, HI(m->nmat)}, {"site_bodyid", 0, HI(m->nbody)}, {"site_matid", -1, HI(m->nmat)},
     {"cam_bodyid", 0, HI(m->nbody)}, {"cam_targetbodyid", -1, HI(m->nbody)}, {"light_bodyid", 0, HI(m->nbody)}, {"light_targetbodyid", -1, HI(m->nbody)},
     {"pair_geom1", 0, HI(m->ngeom)}, {"pair_geom2", 0, HI(m->ngeom)},
-    {"tendon_adr", 0, HI(m->nwrap), true}, {"tendon_matid", -1, HI(m->nmat)},
-    {"sensor_adr", 0, HI(m->nsensordata), true},
+    {"tendon_adr", 0, HI(m->nwrap), true, WD(m->tendon_num[i])}, {"tendon_matid", -1, HI(m->nmat)},
+    {"sensor_adr", 0, HI(m->nsensordata), true, WD(m->sensor_dim[i])},
     {"name_bodyadr", 0, HI(m->nnames)}, {"name_jntadr", 0, HI(m->nnames)}, {"name_geomadr", 0, HI(m->nnames)}, {"name_siteadr", 0, HI(m->nnames)},
     {"name_actuatoradr", 0, HI(m->nnames)}, {"name_sensoradr", 0, HI(m->nnames)}, {"name_tendonadr", 0, HI(m->nnames)}, {"name_eqadr", 0, HI(m->nnames)},
     {"key_time", 0, nullptr},
@@ -112,7 +123,7 @@ static void check_bounds(const mjModel* m, const char* how) {
     const int* p = int_field(m, b.field, &n);
     if (!p) continue;
     long hi = b.hi(m) + (b.adr ? 1 : 0);
-    for (long i = 0; i < n; i++) if (p[i] < b.lo || p[i] >= hi) {
+    for (long i = 0; i < n; i++) if (!legal_ref(b, m, i, p[i])) {
       if (p[i] == -1 && b.lo == 0) { violation_or_continue("accepted-minus-one-reference", "%s: accepted model has %s[%ld]=-1", how, b.field, i); break; }
       std::string cls = std::string("out-of-bounds-reference:") + b.field;
       violation_or_continue(cls.c_str(), "%s: accepted model has %s[%ld]=%d outside [%ld,%ld)", how, b.field, i, p[i], b.lo, hi);
@@ -292,9 +303,11 @@ int main(int argc, char** argv) {
         for (auto& x : lay) if (x.name == b.field) a = &x;
         if (!a || !a->n || !a->isint) continue;
         long hi = b.hi(m) + (b.adr ? 1 : 0);
-        const long vals[] = {b.lo - 1, b.lo - 2, hi, hi + 1, 2147483647L, -2147483647L - 1, hi - 1, b.lo};
-        for (int vi = 0; vi < 8; vi++) {
+        for (int vi = 0; vi < 10; vi++) {
           long idx = r.below((int)a->n);
+          long w = b.width ? b.width(m, idx) : 1;
+          // below / above the range, extremes, the last legal and the first illegal value for THIS element (address + width)
+          const long vals[] = {b.lo - 1, b.lo - 2, hi, hi + 1, 2147483647L, -2147483647L - 1, hi - 1, b.lo, b.hi(m) - w, b.hi(m) - w + 1};
           std::vector<char> c = bytes;
           int v = (int)vals[vi];
           memcpy(c.data() + a->off + idx * 4, &v, 4);
@@ -302,7 +315,7 @@ int main(int argc, char** argv) {
           uint64_t w0 = g_nwarn;
           mjModel* mc = load_exact(c, &raised);
           count("faulted_executions"); count("field_corruptions");
-          bool illegal = v < b.lo || v >= hi;
+          bool illegal = !legal_ref(b, m, idx, v);
           if (mc && v == -1 && b.lo == 0) {
             // -1 means "none" only in some fields; the loader accepts it everywhere (recorded finding)
             mj_deleteModel(mc);
